@@ -23,6 +23,8 @@ EFF_NAMES = {
     16: "when C: n -= d2", 17: "n := u",
 }
 INV_NAMES = {0: "always n <= c3", 1: "always b or p(o1)"}
+TRAJ_NAMES = {0: "sometime b", 1: "at-most-once p(o1)", 2: "sometime-before b p(o1)", 3: "sometime-after p(o1) b",
+              4: "always (b or not p(o2))", 5: "sometime p(o2)", 6: "at-most-once b"}
 
 
 DEFAULTS = dict(lb=0, ub=5, x0=2, c=3, d=2, c1=1, c2=4, c3=5, d2=1, u0=3)
@@ -48,24 +50,27 @@ def _build(ctx, sk, env=None):
     em, tm = env.expression_manager, env.type_manager
     g = G()
     g.env, g.em, g.tm, g.sk = env, em, tm, sk
+    nm = lambda k: (sk.get("names") or {}).get(k, k)  # noqa: E731  identifier overrides (adversarial pools)
+    g.nm = nm
     with ctx.untraced():
-        T = tm.UserType("T")
-        S = tm.UserType("S", T)
+        T = tm.UserType(nm("T"))
+        S = tm.UserType(nm("S"), T)
         g.T, g.S = T, S
-        o1, o2 = Object("o1", T, env), Object("o2", S, env)
+        o1, o2 = Object(nm("o1"), T, env), Object(nm("o2"), S, env)
         objs = [o1, o2]
         if sk.get("three_objects"):
-            objs.append(Object("o3", T, env))
+            objs.append(Object(nm("o3"), T, env))
         g.objs = objs
-        b = Fluent("b", tm.BoolType(), environment=env)
-        p = Fluent("p", tm.BoolType(), environment=env, x=T)
-        w = Fluent("w", T, environment=env, x=T)
-        u = Fluent("u", tm.IntType(), environment=env)
+        b = Fluent(nm("b"), tm.BoolType(), environment=env)
+        p = Fluent(nm("p"), tm.BoolType(), environment=env, **{nm("x"): T})
+        w = Fluent(nm("w"), T, environment=env, **{nm("x"): T})
+        u = Fluent(nm("u"), tm.IntType(), environment=env)
     g.o1, g.o2 = o1, o2
     # numeric fluent n with (possibly symbolic) bounds
     nb = sk.get("n_bounds", "none")
     sym = sk.get("sym")  # names of the leaves that are solver variables (None: all); the others take DEFAULTS
     is_sym = lambda name: sym is None or name in sym  # noqa: E731
+    DEFAULTS = dict(globals()["DEFAULTS"], **(sk.get("values") or {}))  # concrete overrides, e.g. from a choice-driven pool
     lb = ub = None
     if nb in ("both", "lower"):
         lb = ctx.int("lb", *sk.get("lb_range", (-2, 2))) if is_sym("lb") else DEFAULTS["lb"]
@@ -73,7 +78,7 @@ def _build(ctx, sk, env=None):
         ub = ctx.int("ub", *sk.get("ub_range", (-1, 5))) if is_sym("ub") else DEFAULTS["ub"]
     if lb is not None and ub is not None:
         ctx.assume(lb <= ub)
-    n = Fluent("n", tm.IntType(lb, ub), environment=env)
+    n = Fluent(nm("n"), tm.IntType(lb, ub), environment=env)
     g.b, g.p, g.w, g.u, g.n, g.lb, g.ub = b, p, w, u, n, lb, ub
     F = None
     uses = set(sk.get("pre", [])) | set(sk.get("goal", [])) | {sk.get("effcond", 2), sk.get("effcond2", 0)}
@@ -81,8 +86,18 @@ def _build(ctx, sk, env=None):
         F = up.model.InterpretedFunction("F", tm.IntType(), {"v": tm.IntType()}, lambda v: v * v - 2, env)
     g.F = F
     prob = Problem("g", env)
-    for fl in (b, p, w, u, n):
-        prob.add_fluent(fl)
+    # fluents the skeleton never mentions are left out when sk["minimal"] is set (compilers reject kinds they do not support:
+    # an unused undefined int fluent would put UNDEFINED_INITIAL_NUMERIC into every problem's kind)
+    _c = set(sk.get("pre", [])) | set(sk.get("goal", [0])) | set(sk.get("pre2", [])) | {sk.get("effcond", 2), sk.get("effcond2", 0)}
+    _e = set(sk["effs"]) | set(sk.get("second_action") or [])
+    minimal = sk.get("minimal", False)
+    need_u = (not minimal) or bool(_c & {9}) or bool(_e & {11, 17})
+    need_w = (not minimal) or bool(_c & {10, 11}) or bool(_e & {7, 14})
+    need_n = (not minimal) or bool(_c & {4, 5, 9, 13, 14}) or bool(_e & {2, 3, 4, 5, 8, 9, 16, 17}) or 0 in sk.get("inv", [])
+    g.has = dict(u=need_u, w=need_w, n=need_n)
+    for fl, need in ((b, True), (p, True), (w, need_w), (u, need_u), (n, need_n)):
+        if need:
+            prob.add_fluent(fl)
     prob.add_objects(objs)
     g.problem = prob
     rng = sk.get("const_range", (-2, 5))
@@ -179,8 +194,8 @@ def _build(ctx, sk, env=None):
                 raise ValueError(i)
 
     def mk_action(name, pre, effs, effcond):
-        act = InstantaneousAction(name, _env=env, x=T)
-        x = em.ParameterExp(act.parameter("x"))
+        act = InstantaneousAction(nm(name), _env=env, **{nm("x"): T})
+        x = em.ParameterExp(act.parameter(nm("x")))
         for i in pre:
             act.add_precondition(cond(i, x))
         add_effects(act, x, effs, effcond)
@@ -200,6 +215,12 @@ def _build(ctx, sk, env=None):
             prob.add_state_invariant(em.Or(em.FluentExp(b), em.FluentExp(p, [em.ObjectExp(o1)])))
     for i in sk.get("goal", [0]):
         prob.add_goal(cond(i, em.ObjectExp(o1)))
+    for i in sk.get("traj", []):
+        fb, fp1, fp2 = em.FluentExp(b), em.FluentExp(p, [em.ObjectExp(o1)]), em.FluentExp(p, [em.ObjectExp(o2)])
+        tc = {0: lambda: em.Sometime(fb), 1: lambda: em.AtMostOnce(fp1), 2: lambda: em.SometimeBefore(fb, fp1),
+              3: lambda: em.SometimeAfter(fp1, fb), 4: lambda: em.Always(em.Or(fb, em.Not(fp2))), 5: lambda: em.Sometime(fp2),
+              6: lambda: em.AtMostOnce(fb)}[i]()
+        prob.add_trajectory_constraint(tc)
     # initial state: Booleans fork, numerics symbolic; u stays undefined unless asked
     # Boolean initial values fork only for fluents the skeleton mentions (the others are irrelevant to every verdict)
     conds = set(sk.get("pre", [])) | set(sk.get("goal", [0])) | set(sk.get("pre2", []))
@@ -214,12 +235,13 @@ def _build(ctx, sk, env=None):
     for o in objs:
         prob.set_initial_value(em.FluentExp(p, [em.ObjectExp(o)]), em.Bool(bool(ctx.choice(f"p0_{o.name}", 2)) if uses_p else False))
     wi = sk.get("w_init", "id")
-    for o in objs:
+    for o in (objs if need_w else []):
         tgt = o if wi == "id" else objs[ctx.choice(f"w0_{o.name}", len(objs))]
         prob.set_initial_value(em.FluentExp(w, [em.ObjectExp(o)]), em.ObjectExp(tgt))
-    g.x0 = ctx.int("x0", *sk.get("x0_range", (-2, 6))) if is_sym("x0") else DEFAULTS["x0"]
-    prob.set_initial_value(em.FluentExp(n), em.Int(g.x0))
-    if not sk.get("undef_u", True):
+    g.x0 = (ctx.int("x0", *sk.get("x0_range", (-2, 6))) if is_sym("x0") else DEFAULTS["x0"]) if need_n else None
+    if need_n:
+        prob.set_initial_value(em.FluentExp(n), em.Int(g.x0))
+    if need_u and not sk.get("undef_u", True):
         prob.set_initial_value(em.FluentExp(u), em.Int(C("u0")))
     return g
 
@@ -228,7 +250,8 @@ def describe(sk):
     return dict(pre=[COND_NAMES[i] for i in sk.get("pre", [])], effs=[EFF_NAMES[i] for i in sk["effs"]],
                 effcond=COND_NAMES[sk.get("effcond", 2)], inv=[INV_NAMES[i] for i in sk.get("inv", [])],
                 goal=[COND_NAMES[i] for i in sk.get("goal", [0])], n_bounds=sk.get("n_bounds", "none"),
-                second_action=[EFF_NAMES[i] for i in sk.get("second_action") or []])
+                second_action=[EFF_NAMES[i] for i in sk.get("second_action") or []], traj=[TRAJ_NAMES[i] for i in sk.get("traj", [])],
+                values=sk.get("values"), names=sk.get("names"))
 
 
 # the fixed quick list: every template at least once, every interesting pair of effects on one fluent.
